@@ -96,7 +96,7 @@ fn mk(kind: &str, n: usize, v0: V) -> Option<Box<dyn Subject>> {
 
 // ------------------------------------------------------------------ affine + range
 
-const MAPS: [(f64, f64); 8] = [(2.0, 0.0), (-1.0, 0.0), (0.5, 1.0), (-4.0, -8.0), (1.0, 1.0), (1.0, -8.0), (-1.0, 1.0), (2.0, -8.0)];
+const MAPS: [(f64, f64); 10] = [(2.0, 0.0), (-1.0, 0.0), (0.5, 1.0), (-4.0, -8.0), (1.0, 1.0), (1.0, -8.0), (-1.0, 1.0), (2.0, -8.0), (8.470329472543003e-22, 0.0), (1099511627776.0, 0.0)];
 
 #[derive(Clone)]
 struct Inst {
